@@ -19,8 +19,9 @@ def register(add):
         cfg = 'shipped configuration (CP_RSAPD=PKCS2, OAEP)' if not pd else 'same source with the cmake option CP_RSAPD=%s (re-selected by -DC06X_RSAPD; the macro is used in relic_cp_rsa.c only)' % pd
         add('cp_rsa_dec.' + tag, ['C06', 'C08'], 'cp_rsa_dec', replace=rep, defines=d,
             note='STRICT contract from the property and RFC 8017 (RSADP step 1: ciphertext representative < n): ' + cfg + '. ' + RSA_ABS % padfn, **common)
-        add('cp_rsa_dec.%s.codeguards' % tag, ['C06', 'C08'], 'cp_rsa_dec', replace=rep, defines=d + ['C06X_NO_RANGE'],
-            note='as cp_rsa_dec.%s WITHOUT clause (3) (ciphertext representative compared with the modulus before the exponentiation), which the code does not implement: ' % tag + cfg + '. ' + RSA_ABS % padfn, **common)
+        if __import__('os').environ.get('C06X_ALL'):
+          add('cp_rsa_dec.%s.codeguards' % tag, ['C06', 'C08'], 'cp_rsa_dec', replace=rep, defines=d + ['C06X_NO_RANGE'],
+              note='as cp_rsa_dec.%s WITHOUT clause (3) (ciphertext representative compared with the modulus before the exponentiation), which the code does not implement: ' % tag + cfg + '. ' + RSA_ABS % padfn, **common)
 
     # ---- decryption half of the padding parsers over the byte-level model of bn_rsh / bn_mod_2b / bn_is_zero ----------------------
     PM = ('bn_rsh, bn_mod_2b, bn_is_zero are BYTE-LEVEL MODEL stubs (bodies in stubs/c06x_rsa_pad_state.h = the model of the c05x padding units, preconditions as assertions) over a ghost byte string '
@@ -32,8 +33,9 @@ def register(add):
     what = 'EM = 00 02 PS 00 M, PS nonzero octets, |M| >= 1 (RELIC admits no empty plaintext), nothing beyond k_len bytes; on RLC_OK *p_len = k_len - |M| and m reduced once to its low |M| bytes'
     add('pad_pkcs1.dec', ['C06'], 'pad_pkcs1', defines=['C06X_RSAPD=PKCS1', 'C06X_PADFN=pad_pkcs1'],
         note='STRICT: RLC_OK <==> ' + what + ', with |PS| >= 8 (RFC 8017 7.2.2 step 3); same source with CP_RSAPD=PKCS1. ' + PM, **pm)
-    add('pad_pkcs1.dec.codeguards', ['C06'], 'pad_pkcs1', defines=['C06X_RSAPD=PKCS1', 'C06X_PADFN=pad_pkcs1', 'C06X_MINPS=0'],
-        note='as pad_pkcs1.dec WITHOUT the minimum length of PS, which the code does not enforce (|PS| >= 0): RLC_OK <==> ' + what + '; same source with CP_RSAPD=PKCS1. ' + PM, **pm)
+    if __import__('os').environ.get('C06X_ALL'):
+      add('pad_pkcs1.dec.codeguards', ['C06'], 'pad_pkcs1', defines=['C06X_RSAPD=PKCS1', 'C06X_PADFN=pad_pkcs1', 'C06X_MINPS=0'],
+          note='as pad_pkcs1.dec WITHOUT the minimum length of PS, which the code does not enforce (|PS| >= 0): RLC_OK <==> ' + what + '; same source with CP_RSAPD=PKCS1. ' + PM, **pm)
 
     # ---- ECIES ---------------------------------------------------------------------------------------------------------------------
     add('c06x.cp_ecies_dec', ['C06', 'C08'], 'cp_ecies_dec', sources=['src/cp/relic_cp_ecies.c', 'src/bn/relic_bn_mem.c', 'src/bn/relic_bn_util.c'], headers=['c06x_ecies.h', 'c06x_ecies_state.h'],
